@@ -37,7 +37,8 @@ L1 == {Arr(<<a>>) : a \in AllStrs \cup Nums}
       \cup {Map(<<k>>, <<a>>) : k \in Keys, a \in FewAtoms}
       \cup {Map(<<c>>, <<Str(<<12>>)>>) : c \in Strs2 \ {<<>>}}
 \* level 2: arrays and maps of two elements, and one level of nesting
-Inner == FewAtoms \cup {Arr(<<>>)} \cup {Arr(<<a>>) : a \in {Str(<<12>>), Num(2)}}
+\* (no empty containers: uscxml::Data has no empty array / map distinct from the empty value, which is written as null)
+Inner == FewAtoms \cup {Arr(<<a>>) : a \in {Str(<<12>>), Num(2)}}
          \cup {Map(<<k>>, <<a>>) : a \in {Str(<<12>>), Num(2)}, k \in {<<12>>, <<1>>}}
 L2 == {Arr(<<a, b>>) : a \in Inner, b \in Inner}
       \cup {Map(<<k1, k2>>, <<a, b>>) : k1 \in {<<12>>, <<1>>}, k2 \in {<<11>>, <<2>>}, a \in Inner, b \in Inner}
